@@ -186,6 +186,8 @@ def check_shard(path):
                     continue
                 if obs_t in ("Infinity", "-Infinity", "NaN", "sNaN", "-NaN"):
                     v("feel-nonfinite-result:%s" % op, "FEEL `%s` of %s, %s is undefined or out of range but evaluates to %s instead of null" % (op, ta, tb, obs_t), case)
+                elif op == "pow" and b < 0 and a == 0:
+                    v("pow:zero-base-negative-exponent", "FEEL `%s` of %s, %s (zero raised to a negative power) is undefined but evaluates to %s instead of null" % (op, ta, tb, obs_t), case)
                 elif op == "pow" and b < 0:
                     v("pow:negative-exponent-result-out-of-range", "FEEL `%s` of %s, %s is out of range but evaluates to %s instead of null" % (op, ta, tb, obs_t), case)
                 else:
